@@ -224,6 +224,10 @@ type ledger struct {
 	// locks). Every other lockset / lock obligation is claimed, including ones
 	// that only come into existence after a change.
 	LockUnproved []string `json:"lock_groups_unproved_on_the_unchanged_tree"`
+	// functions all of whose safety obligations (nil, index, overflow, close,
+	// explicit panic) discharged on the unchanged tree: there a safety
+	// obligation that only comes into existence after a change is claimed too.
+	SafetyClean []string `json:"functions_with_every_safety_obligation_discharged_on_the_unchanged_tree"`
 }
 
 func loadLedger(prop string) map[string]bool {
@@ -238,6 +242,9 @@ func loadLedger(prop string) map[string]bool {
 	m := map[string]bool{}
 	for _, g := range l.Groups {
 		m[g] = true
+	}
+	for _, f := range l.SafetyClean {
+		m["\x00clean:"+f] = true
 	}
 	if l.LockUnproved != nil {
 		m["\x00lock-exclusion-list"] = true
@@ -255,6 +262,9 @@ func claimed(o *Obligation, led map[string]bool) bool {
 	}
 	if (o.Kind == "lockset" || o.Kind == "lock") && led["\x00lock-exclusion-list"] {
 		return !led["\x00unproved:"+o.Group]
+	}
+	if o.Kind == "safety" && led["\x00clean:"+o.Func] {
+		return true
 	}
 	return led[o.Group]
 }
@@ -703,7 +713,20 @@ func writeLedger(prop string, rep *checkReport) {
 		}
 	}
 	sort.Strings(lu)
-	data, _ := json.MarshalIndent(ledger{Property: prop, Groups: gs, LockUnproved: lu}, "", " ")
+	dirty := map[string]bool{}
+	for _, o := range rep.All {
+		if o.Kind == "safety" && rep.failedGroups[o.Group] {
+			dirty[o.Func] = true
+		}
+	}
+	clean := []string{}
+	for _, f := range rep.Funcs {
+		if f.Key != "" && !dirty[f.Key] && len(f.Assumed) == 0 && f.Paths > 0 {
+			clean = append(clean, f.Key)
+		}
+	}
+	sort.Strings(clean)
+	data, _ := json.MarshalIndent(ledger{Property: prop, Groups: gs, LockUnproved: lu, SafetyClean: clean}, "", " ")
 	os.WriteFile(filepath.Join(verifDir, "ledger", prop+".json"), append(data, '\n'), 0o644)
 }
 
